@@ -43,3 +43,10 @@ pub use crate::network::verif_streams;
 #[cfg(scylla_verif)]
 #[allow(missing_docs)]
 pub use crate::network::verif_keyspace;
+
+#[cfg(scylla_verif)]
+#[allow(missing_docs)]
+pub use execution::verif_hooks as verif_execution;
+#[cfg(scylla_verif)]
+#[allow(missing_docs)]
+pub use execution::verif_hooks_speculative as verif_execution_speculative;
